@@ -338,6 +338,28 @@ func isErrorType(t types.Type) bool {
 	return ok && n.Obj().Pkg() == nil && n.Obj().Name() == "error"
 }
 
+// retOperand resolves the idx-th result of a return, looking through the
+// spill slot go/ssa introduces in functions with defer (`*t0 = v; rundefers;
+// t1 = *t0; return t1`): the value stored to the slot in the same block.
+func retOperand(r *ssa.Return, idx int) ssa.Value {
+	v := r.Results[idx]
+	u, ok := v.(*ssa.UnOp)
+	if !ok || u.Op != token.MUL {
+		return v
+	}
+	a, ok := u.X.(*ssa.Alloc)
+	if !ok {
+		return v
+	}
+	b := r.Block()
+	for i := len(b.Instrs) - 1; i >= 0; i-- {
+		if st, ok := b.Instrs[i].(*ssa.Store); ok && st.Addr == a {
+			return st.Val
+		}
+	}
+	return v
+}
+
 func isNilConst(v ssa.Value) bool {
 	c, ok := v.(*ssa.Const)
 	return ok && c.Value == nil
@@ -356,7 +378,7 @@ func (e *Engine) isSuccessReturn(in ssa.Instruction) bool {
 	if idx < 0 || idx >= len(r.Results) {
 		return true
 	}
-	v := r.Results[idx]
+	v := retOperand(r, idx)
 	if isNilConst(v) {
 		return true
 	}
